@@ -196,3 +196,67 @@ theorem specPrune_cellAt (H : List UInt8 → List UInt8) (P : List Nat → Bool)
     · cases h
 
 end Tongo.MerkleLemmas
+
+namespace Tongo.MerkleLemmas
+open Tongo.Merkle
+
+theorem noSingleRefL_get : ∀ (cs : List Cell) (i : Nat) (c : Cell), noSingleRefL cs = true → cs[i]? = some c →
+    noSingleRef c = true
+  | [], _, _, _, h => by simp at h
+  | x :: xs, 0, c, hn, h => by
+    simp only [noSingleRefL, Bool.and_eq_true] at hn
+    simp only [List.getElem?_cons_zero, Option.some.injEq] at h
+    subst h; exact hn.1
+  | x :: xs, i + 1, c, hn, h => by
+    simp only [noSingleRefL, Bool.and_eq_true] at hn
+    simp only [List.getElem?_cons_succ] at h
+    exact noSingleRefL_get xs i c hn.2 h
+
+/-- the loop of `ProveKeyInHashmap` panics only at `cursor.Ref(1)` of a cell with exactly one ref -/
+theorem walk_no_panic (ks : Nat) : ∀ (fuel n : Nat) (cell : Cell) (path : List Nat) (key pfx : List Bool)
+    (pruned : List (List Nat)), noSingleRef cell = true →
+    (walk ks fuel n cell path key pfx pruned).isPanic = false := by
+  intro fuel
+  induction fuel with
+  | zero => intros; rfl
+  | succ fuel ih =>
+    intro n cell path key pfx pruned hns
+    cases cell with
+    | mk ty mask bits refs =>
+    simp only [noSingleRef, Bool.and_eq_true, bne_iff_ne, ne_eq] at hns
+    obtain ⟨hlen, hkids⟩ := hns
+    rw [walk]
+    split
+    · rfl
+    · split
+      · rfl
+      · simp only []
+        split
+        · rfl
+        · split
+          · rfl
+          · split
+            · rfl
+            · split
+              · rfl
+              · split
+                · rfl
+                · rename_i r0 hr0
+                  simp only [Cell.refs] at hr0 ⊢
+                  split
+                  · split
+                    · rfl
+                    · rename_i r1 hr1
+                      exact ih _ r1 _ _ _ _ (noSingleRefL_get refs 1 r1 hkids hr1)
+                  · split
+                    · rename_i hr1
+                      -- refs[0] exists, refs[1] does not: exactly one ref
+                      exfalso
+                      have h0 : 0 < refs.length := by
+                        have := (List.getElem?_eq_some_iff.mp hr0).1; exact this
+                      have h1 : refs.length ≤ 1 := by
+                        have := List.getElem?_eq_none_iff.mp hr1; exact this
+                      omega
+                    · exact ih _ r0 _ _ _ _ (noSingleRefL_get refs 0 r0 hkids hr0)
+
+end Tongo.MerkleLemmas
